@@ -478,6 +478,18 @@ BUILTIN_TYPES = {'list', 'tuple', 'set', 'frozenset', 'dict', 'str', 'bytes', 'i
                  'OrderedDict', 'object', 'type'}
 
 
+def _singleton_like(v):
+    """a value for which ``is`` and ``==`` coincide: None / True / False / Ellipsis, a type, a function, a module-level sentinel
+    (MISSING, NOTHING, _UNSET: an upper-case name, possibly dotted)"""
+    if isinstance(v, Const):
+        return v.v is None or isinstance(v.v, bool) or v.v is Ellipsis or isinstance(v.v, type)
+    if isinstance(v, (TypeV, Prim, FuncV, OpaqueV, AnnotV, NTClassV)):
+        return True
+    p = _prov(v)
+    last = p.split('.')[-1]
+    return bool(last) and last.replace('_', '').isalnum() and last.upper() == last and not last.isdigit() and any(c.isalpha() for c in last)
+
+
 _BUILTIN_TYPE_NAMES = frozenset(('str', 'bytes', 'int', 'float', 'bool', 'complex', 'list', 'tuple', 'dict', 'set', 'frozenset', 'type', 'object', 'bytearray'))
 
 
@@ -1460,6 +1472,9 @@ class Interp:
             if k is not None:
                 return k
             a, b = sorted([_prov(l), _prov(r)])
+            if op is ast.Is and not _singleton_like(l) and not _singleton_like(r):
+                # identity of two arbitrary values is not their equality (an equal but distinct object): a fact of its own
+                return self.decide('%s is %s' % (a, b))
             return self.decide('%s == %s' % (a, b))
         if isinstance(l, Const) and isinstance(r, Const):
             try:
